@@ -347,6 +347,10 @@ class SymReal:
             return NotImplemented
         if other is SymNaN:
             return SymNaN
+        if isinstance(other, (float, np.floating)) and other != other:
+            return SymNaN           # NaN is absorbing
+        if isinstance(other, (complex, np.complexfloating)) and (other.real != other.real or other.imag != other.imag):
+            return SymNaN
         if isinstance(other, (complex, np.complexfloating)):
             a = SymComplex(self, SymReal(z3.RealVal(0), 0.0))
             b = SymComplex.of(other)
